@@ -70,7 +70,18 @@ def prepare(need_model=True, need_go=True, verbose=False):
             b.translate_log = log
         else:
             os.makedirs(os.path.join(COQ, "Gen"), exist_ok=True)
-            rc, log = sh([os.path.join(BIN, "translate"), REPO, os.path.join(COQ, "Gen")], timeout=300)
+            # SSA read/write sets (its own module: needs golang.org/x/tools from the module cache)
+            ssa_json = os.path.join(CACHE, "ssa.json")
+            rc0, log0 = sh(["go", "build", "-o", os.path.join(BIN, "gossa"), "."], cwd=os.path.join(VERIF, "gossa"), env=GOENV, timeout=600)
+            if rc0 == 0:
+                p = subprocess.run([os.path.join(BIN, "gossa"), REPO], stdout=subprocess.PIPE, stderr=subprocess.PIPE, env=GOENV, timeout=600)
+                if p.returncode == 0:
+                    open(ssa_json, "wb").write(p.stdout)
+                else:
+                    open(ssa_json, "w").write(json.dumps({"handler": {"error": p.stderr.decode("utf-8", "replace")[-400:]}}))
+            else:
+                open(ssa_json, "w").write(json.dumps({"handler": {"error": "gossa did not build: " + log0[-300:]}}))
+            rc, log = sh([os.path.join(BIN, "translate"), REPO, os.path.join(COQ, "Gen"), ssa_json], timeout=300)
             b.translate_ok = rc == 0
             b.translate_log = log
         b.wall["translate"] = time.time() - t0
@@ -141,7 +152,8 @@ def check_props(build, files):
     obligations = obligations_of(files)
     broken = []
     assumptions = []
-    deps_failed = [f for f in build.failed_v]
+    # a failing Tie/Props file of ANOTHER property is not this property's business; everything else is upstream
+    deps_failed = [f for f in build.failed_v if f in files or not f.startswith(("Props/", "Tie/"))]
     for f in files:
         vo = os.path.join(COQ, f[:-2] + ".vo")
         if f in deps_failed or not os.path.exists(vo):
